@@ -101,7 +101,7 @@ theorem handlerPoll_terminates (fuel : Nat) (r : AReq) (h : HState) (e : Env)
 /-- In particular with the fuel `pollConn` passes (`≥ 1000`) for fresh scripts of total cost `< 1000`. -/
 theorem handlerPoll_terminates_pollConn (r : AReq) (ops : List HOp) (p : Bool) (e : Env)
     {r' : AReq} {h' : HState} {e' : Env} {s : String}
-    (hp : handlerPoll (handlerFuel e) r { ops := ops, propagate := p } e = (r', h', e', .panic s))
+    (hp : handlerPoll (handlerFuel e r) r { ops := ops, propagate := p } e = (r', h', e', .panic s))
     (hn : noReadAll ops) (hf : (ops.map opCost).sum < 1000) : s ∉ fuelMsgs := by
   refine (handlerPoll_terminates _ _ _ _ hp hn ?_).2
   rw [scriptCost_fresh]; unfold handlerFuel; omega
@@ -321,7 +321,7 @@ transport failure, whatever its kind — ends the connection task in that very s
 `finished` (never `closing`), and the step writes nothing. -/
 theorem propagated_error_finishes (fuel : Nat) (c : Conn) (r : AReq) (h : HState) (r' : AReq) (h' : HState)
     (e : Env) (x : IoErr) (hp : c.phase = .handler r h)
-    (hh : handlerPoll (handlerFuel c.env) r h c.env = (r', h', e, .done (.error x)))
+    (hh : handlerPoll (handlerFuel c.env r) r h c.env = (r', h', e, .done (.error x)))
     (hx : x ≠ .abortRequest) :
     pollConn (fuel + 1) c = ({ c with phase := .finished, env := e.ev s!"HE(err:{showIo x})" }, .finished) ∧
     (e.ev s!"HE(err:{showIo x})").tr.wlog = e.tr.wlog := by
@@ -338,7 +338,7 @@ theorem propagated_error_finishes (fuel : Nat) (c : Conn) (r : AReq) (h : HState
 /-- … and a failed transport write is such an error. -/
 theorem propagated_write_failure_finishes (fuel : Nat) (c : Conn) (r : AReq) (h : HState) (r' : AReq)
     (h' : HState) (e : Env) (x : IoErr) (hp : c.phase = .handler r h)
-    (hh : handlerPoll (handlerFuel c.env) r h c.env = (r', h', e, .done (.error x)))
+    (hh : handlerPoll (handlerFuel c.env r) r h c.env = (r', h', e, .done (.error x)))
     (hk : x = .transportWrite ∨ x = .connectionAborted ∨ x = .writeZero) :
     pollConn (fuel + 1) c = ({ c with phase := .finished, env := e.ev s!"HE(err:{showIo x})" }, .finished) ∧
     (e.ev s!"HE(err:{showIo x})").tr.wlog = e.tr.wlog :=
@@ -403,10 +403,10 @@ example : ∃ c', pollConn 5
 is never hit, whatever the script. -/
 def handlerPoll_terminates_full : Prop :=
   ∀ (r : AReq) (h : HState) (e : Env) (r' : AReq) (h' : HState) (e' : Env) (s : String),
-    handlerPoll (handlerFuel e) r h e = (r', h', e', .panic s) → s ∉ fuelMsgs
+    handlerPoll (handlerFuel e r) r h e = (r', h', e', .panic s) → s ∉ fuelMsgs
 
-/-- It is false: the fuel is `1000 + 4·(pending input)`, a script of 1001 trivial ops on an idle
-connection exhausts it.  (A limit of the harness scripts, not of the Rust: the `_partial` form
+/-- It is false: the fuel is `1000 + 4·(pending input) + 4·(parser buffer size)`, a script of one more
+trivial op than that on an idle connection exhausts it.  (A limit of the harness scripts, not of the Rust: the `_partial` form
 `handlerPoll_terminates` covers every script whose cost is below the fuel.) -/
 theorem handlerPoll_terminates_full_false : ¬ handlerPoll_terminates_full := by
   intro h
@@ -420,8 +420,9 @@ theorem handlerPoll_terminates_full_false : ¬ handlerPoll_terminates_full := by
       intro r e
       obtain ⟨r', h', e', hk⟩ := ih { r with sp := r.sp.consumeStream 0 } e
       exact ⟨r', h', e', by rw [List.replicate_succ]; simp only [handlerPoll]; exact hk⟩
-  obtain ⟨r', h', e', hp⟩ := key 1000 exAReq { tr := exTrEof }
-  exact h exAReq { ops := List.replicate 1001 (.consume 0) } { tr := exTrEof } r' h' e' _ hp (by decide)
+  obtain ⟨r', h', e', hp⟩ := key (handlerFuel { tr := exTrEof } exAReq) exAReq { tr := exTrEof }
+  exact h exAReq { ops := List.replicate (handlerFuel { tr := exTrEof } exAReq + 1) (.consume 0) } { tr := exTrEof }
+    r' h' e' _ hp (by decide)
 
 /-- the `_partial` form: scripts without `readAll` whose cost is below the fuel -/
 theorem handlerPoll_terminates_partial (fuel : Nat) (r : AReq) (h : HState) (e : Env)
